@@ -156,3 +156,20 @@ def readLoopNackArg (seqno first rate : Nat) : Option Nat :=
   if delta > packets then some (sub16 seqno unnacked) else none
 
 end Galene.Loss
+
+namespace Galene.Loss
+
+/-- The receiver-report arithmetic of `sendUpRTCP` (rtpconn/rtpconn.go:948-960)
+on the result of `GetStats(true)`: (totalLost, fractionLost).  uint32 wrap of
+`lost * 256` is modelled. -/
+def reportLoss (s : StatsOut) : Nat × Nat :=
+  let totalLost := if s.totalExpected > s.totalReceived then s.totalExpected - s.totalReceived else 0
+  let fractionLost :=
+    if s.expected > s.received then
+      let lost := s.expected - s.received
+      let f := (lost * 256 % 4294967296) / s.expected
+      if f ≥ 255 then 255 else f
+    else 0
+  (totalLost, fractionLost)
+
+end Galene.Loss
